@@ -4,6 +4,7 @@
 import GeonumModel.Lemmas.GradeAngle
 import GeonumModel.Lemmas.Exact
 import GeonumModel.Props.C05
+import GeonumModel.Lemmas.FloatTrig
 
 set_option linter.unusedSectionVars false
 set_option linter.unusedVariables false
@@ -70,6 +71,36 @@ theorem cos_sin_lattice {a : Angle F} (ha : a.Inv) :
   · rw [st.2.1, hvsa]; exact hs1
 
 end S
+
+/-! ### B-tier: the gateway magnitudes in ROUNDED arithmetic, angle in true radians -/
+section B
+variable {F : Type} [FloatSpec F]
+
+/-- (B) the cosine / sine gateways return `|cos T|` / `|sin T|` of the true total angle to within `6e-15`
+    (rounding of `grade_angle`, the `π_f ≠ π` offset of up to three quarter turns, and the libm error) -/
+theorem cos_sin_mag_float {a : Angle F} (ha : a.Inv) :
+    abs (val (Geonum.cos a).mag - abs (Real.cos (Angle.Tpi a))) ≤ 6 / 10 ^ 15 ∧
+    abs (val (Geonum.sin a).mag - abs (Real.sin (Angle.Tpi a))) ≤ 6 / 10 ^ 15 := by
+  have hg := gradeAngle_fin ha
+  obtain ⟨hfc, _, hcerr⟩ := cos_spec hg
+  obtain ⟨hfs, _, hserr⟩ := sin_spec hg
+  obtain ⟨_, hvc⟩ := fabs_spec hfc
+  obtain ⟨_, hvs⟩ := fabs_spec hfs
+  obtain ⟨hc2, hs2⟩ := trig_gradeAngle_true ha
+  have het := errTrig_le (F := F)
+  have st := cos_sin_structure a
+  have hnum : (1:ℝ) / 10 ^ 15 + 5 / 10 ^ 15 ≤ 6 / 10 ^ 15 := by norm_num
+  constructor
+  · rw [st.1, hvc]
+    refine le_trans (abs_abs_sub_abs_le_abs_sub _ _) ?_
+    have := abs_sub_le (val (FloatLike.cos a.gradeAngle)) (Real.cos (val a.gradeAngle)) (Real.cos (Angle.Tpi a))
+    linarith
+  · rw [st.2.1, hvs]
+    refine le_trans (abs_abs_sub_abs_le_abs_sub _ _) ?_
+    have := abs_sub_le (val (FloatLike.sin a.gradeAngle)) (Real.sin (val a.gradeAngle)) (Real.sin (Angle.Tpi a))
+    linarith
+
+end B
 
 /-! ### E-tier: exact arithmetic -/
 section E
